@@ -176,6 +176,8 @@ Fixpoint set_cols (s : state) (chs : list handle) (ws : list (nat * list (nat * 
 (* where a new column comes from *)
 Inductive colspec :=
 | CFrom (h : handle) (sel : option (list nat))      (* copy of vector h, optionally rows [sel] *)
+| CFromAs (h : handle) (n : option nat)              (* copy of vector h stored under another name:
+                                                        t >> {name: v} - the OPERAND keeps its own name *)
 | CCat (h : handle) (extra : list sval)              (* h << extra   (dtype widened, name dropped) *)
 | CLit (l : list sval) (n : option nat)              (* built from a plain list: Vector(list), dtype inferred,
                                                         an empty list stays untyped *)
@@ -196,6 +198,7 @@ Definition build_col (s : state) (c : colspec) : option (list sval * option nat 
                   then Some (select (vals v) idx SNone, nm v, dt v) else None
       | None => None
       end
+  | CFromAs h n => match getv s h with Some v => Some (vals v, n, dt v) | None => None end
   | CCat h extra =>
       match getv s h with
       | Some v => Some (vals v ++ extra, None,
@@ -361,3 +364,27 @@ Definition step (s : state) (o : op) : state * outcome :=
                             | OV _ => true end) (heap s)
       then (collect s hs, Ok) else (s, Stuck)
   end.
+
+(* ---- derived objects take fresh storage ------------------------------------------------
+   Only the constructor applied to a caller-supplied tuple (Vector(T)) may give a new vector a storage
+   identity that a live object already holds.  Everything else the library builds - copies, slices,
+   masks, operation results, the columns of every new table - owns new storage: an identity
+   held by no live object (the interpreter may hand out the identity of FREED storage again, and every
+   empty tuple is the one object with identity 0).  [step_d] is [step] with that rule enforced: an
+   operation that would break it is [Stuck] and changes nothing. *)
+Definition sids_in_use (s : state) : list nat :=
+  map (fun ho => match snd ho with OV v => sid v | OT t => tsid t end) (heap s).
+
+Definition new_sids (o : op) : list nat :=
+  match o with
+  | ONewVec _ _ _ i => [i]
+  | ONewTab _ _ _ sids t => t :: sids
+  | _ => []      (* a write frees storage of the written object WHILE it runs (promotion, one column after
+                    the other) and may get that identity back: nothing is demanded of the tuples it swaps in *)
+  end.
+
+Definition fresh_ok (s : state) (o : op) : bool :=
+  forallb (fun i => Nat.eqb i 0 || negb (mem i (sids_in_use s))) (new_sids o).
+
+Definition step_d (s : state) (o : op) : state * outcome :=
+  if fresh_ok s o then step s o else (s, Stuck).
